@@ -1,7 +1,9 @@
 package harness
 
 import (
+	"bytes"
 	"fmt"
+	"os"
 
 	"verifsim/fakepg"
 	"verifsim/model"
@@ -10,7 +12,7 @@ import (
 func init() {
 	Generators["C05"] = GenC05
 	Extras["C05"] = func(p *Plan) Extra {
-		return Extra{OnCommit: c05OnCommit, OnOutcome: c05OnOutcome}
+		return Extra{OnCommit: c05OnCommit, OnOutcome: c05OnOutcome, AtEnd: c05AtEnd}
 	}
 }
 
@@ -65,6 +67,16 @@ func GenC05(seed uint64) *Plan {
 		// referenced integration that has just unwound)
 		for _, d := range p.Decls {
 			g.hashedDecl(d)
+		}
+		// addresses that enter a referenced table near the head, in some
+		// versions of their block only: whether the dependent may emit rows for
+		// them depends on the branch that wins
+		for k := 0; k < g.between(0, 6); k++ {
+			ref := p.Decls[g.R.IntN(len(p.Decls)-1)]
+			if ref.Event == nil || len(ref.Event.Inputs) == 0 || ref.Event.Inputs[0].Type != "address" {
+				continue
+			}
+			p.Content.Late = append(p.Content.Late, LateAddr{Event: ref.Event, AddrInput: 0, Addr: g.addr(), At: uint64(g.between(sp.InitLen-3, sp.InitLen+12)), Pct: 50})
 		}
 		g.reorgFaults(p, g.between(2, 6))
 		p.Faults.ReorgPerMille = g.pickInt([]int{15, 25, 40})
@@ -163,6 +175,30 @@ func (g *G) depGraph(p *Plan, depStart, depStop uint64) {
 // At every commit of a dependent to position n, every referenced pair on the
 // same source has recorded a position >= n in that very snapshot.
 func c05OnCommit(w *World, ps *pairState, ci *fakepg.CommitInfo) {
+	if len(w.plan.Content.Late) > 0 {
+		full := "public." + ps.decl.Table.Name
+		if ts := ci.Snap.Table(full); ts != nil {
+			for _, la := range w.plan.Content.Late {
+				if ps.decl.Event == nil || ps.decl.Event.Name != la.Event.Name {
+					continue
+				}
+				addr := decodeAddrs([]string{la.Addr})[0]
+				ci2 := ts.Col(la.Event.Inputs[la.AddrInput].Column)
+				for _, r := range ci.Inserted[full] {
+					if ci2 >= 0 && ci2 < len(r.Vals) {
+						if b, ok := r.Vals[ci2].([]byte); ok && bytes.Equal(b, addr) {
+							w.mu.Lock()
+							if w.lateSeen == nil {
+								w.lateSeen = map[string]bool{}
+							}
+							w.lateSeen[la.Addr] = true
+							w.mu.Unlock()
+						}
+					}
+				}
+			}
+		}
+	}
 	deps := w.depsOf(ps.decl)
 	if len(deps) == 0 || len(ci.Inserted[cursorTable]) == 0 {
 		return
@@ -219,7 +255,22 @@ func c05OnCommit(w *World, ps *pairState, ci *fakepg.CommitInfo) {
 					w.violate("lookup-during-referenced-unwind", "pair %s recorded block %d in a step during which the integration it references (%s) unwound to position %d: positions are read in the step's first transaction and the lookups run in the second, so the lookups saw a referenced table without the unwound blocks", ps.key, n, o.key, lo)
 					// rows of this step may be missing for that reason: the row
 					// comparisons of this pair say nothing further in this run
-					ps.lookupsUnreliable = true
+					w.markUnreliable(ps, ci, n)
+				}
+			}
+			if len(oc) > 0 && ps.src.node.Reorgs > 0 {
+				if tip := oc[len(oc)-1]; len(tip.hash) == 32 && tip.num >= 0 && !ps.src.node.IsCanonical(tip.hash) {
+					// the referenced pair still sits on a replaced branch: its
+					// table holds rows of orphaned blocks, and the dependent,
+					// which compares block numbers only, did its lookups there
+					w.stat("probe_lookup_against_replaced_branch", 1)
+					if !ps.staleRefReported {
+						w.violate("lookup-against-replaced-referenced-branch", "pair %s recorded block %d while the integration it references (%s) still held position %d of a replaced branch (hash %x): the dependency check compares block numbers only, so the lookups of this step ran against rows of orphaned blocks", ps.key, n, o.key, tip.num, tip.hash[:4])
+					}
+					if os.Getenv("VERIF_C05_NOGATE") == "" {
+						w.markUnreliable(ps, ci, n)
+					}
+					ps.staleRefReported = true
 				}
 			}
 			if have >= n {
@@ -259,5 +310,77 @@ func c05OnOutcome(w *World, ps *pairState, err error) {
 		if lim := w.depLimit(ps, snap); lim >= 0 && lim < int64(ps.src.node.HeadNum()) && ps.curNum >= lim {
 			w.stat("probe_dependent_throttled", 1)
 		}
+	}
+}
+
+// c05AtEnd counts how often the situation the late addresses are there for was
+// reached: an address entered a referenced table in a block that was replaced
+// later by a version without it, and the dependent meets that address above
+// that block on the chain that won.
+func c05AtEnd(w *World) {
+	if len(w.plan.Content.Late) == 0 {
+		return
+	}
+	snap := w.srv.DB.Snapshot()
+	look := w.lookupIn(snap)
+	for _, la := range w.plan.Content.Late {
+		addr := decodeAddrs([]string{la.Addr})[0]
+		var refTable string
+		for _, d := range w.plan.Decls {
+			if d.Event != nil && d.Event.Name == la.Event.Name {
+				refTable = d.Table.Name
+			}
+		}
+		if refTable == "" {
+			continue
+		}
+		w.mu.Lock()
+		ever := w.lateSeen[la.Addr]
+		w.mu.Unlock()
+		if !ever {
+			continue
+		}
+		w.stat("probe_late_address_entered_referenced_table", 1)
+		if look(refTable, la.Event.Inputs[la.AddrInput].Column, addr) {
+			continue
+		}
+		w.stat("probe_late_address_orphaned", 1)
+		for _, ss := range w.sources() {
+			for num := la.At + 1; num <= ss.node.HeadNum(); num++ {
+				b := ss.node.Canonical(num)
+				for ti := range b.Txs {
+					for li := range b.Txs[ti].Logs {
+						if tag, ok := b.Txs[ti].Logs[li].Tag.(*model.LogTag); ok && tag.Sig != model.Signature(la.Event) {
+							for _, v := range tag.Values {
+								if v.Type == "address" && bytes.Equal(v.Bytes, addr) {
+									w.stat("probe_late_address_met_after_orphaned", 1)
+								}
+							}
+						}
+					}
+				}
+			}
+		}
+	}
+}
+
+// markUnreliable: the blocks recorded by this step of ps (everything above the
+// pair's previous position up to n) did their reference lookups in one of the
+// two situations the known findings describe; row equality says nothing about
+// those blocks until the pair unwinds below them and indexes them again.
+func (w *World) markUnreliable(ps *pairState, ci *fakepg.CommitInfo, n int64) {
+	curs := w.cursorsOf(ci.Snap, ps)
+	from := ps.origin
+	if len(curs) >= 2 {
+		from = curs[len(curs)-2].num + 1
+	}
+	if from < 0 {
+		from = 0
+	}
+	if ps.unreliable == nil {
+		ps.unreliable = map[int64]bool{}
+	}
+	for b := from; b <= n; b++ {
+		ps.unreliable[b] = true
 	}
 }
